@@ -1064,11 +1064,16 @@ def c08(tier):
     st = rep_tasks(["C08S"], sb, graphs=["indep3", "indep4", "twocomp", "wide5"] if tier == "quick" else None, params=sys_params)
     st += rep_tasks(["C08S"], (1, 0) if tier == "quick" else sb, graphs=["chain3", "fork", "diamond", "join"], params=[("sz1-mx2", dict(size=1, max_nodes=2)), ("sz2-mxN", dict(size=2, max_nodes=None))],
                     exit_sets=fail_sets, cancel_sets=lambda n: [(1,) * n])
+    # a status query that fails for a whole round while results are waiting to be collected
+    for t in rep_tasks(["C08S"], (0, 1), graphs=["chain3", "indep3", "fork"], params=[("sz1-mx2", dict(size=1, max_nodes=2)), ("sz2-mxN", dict(size=2, max_nodes=None))]):
+        t["fault"] = dict(plan="c11", kinds=["squeue"])
+        t["id"] += "-squeue-fault"
+        st.append(t)
     for t in st:
         t["id"] = "c08s-" + t["id"]
     tasks += st
     bounds += ("; system level: REP graphs with several jobs per batch (processes 1/2) and with failures + cancel flags, real run-jobs processes appending while other nodes' submitter rounds collect, "
-               f"{sb[0]} preemption(s), oracle: every runner row exactly once in the consolidated file and its job reported done")
+               f"{sb[0]} preemption(s), oracle: every runner row exactly once in the consolidated file and its job reported done; also after one failed status query (squeue down for a whole round)")
     return explore_check("C08", tier, tasks, F_RULE + "; the system-level scenarios use the mode-S rule (real CLI processes over the simulated scheduler)", F_ASSUMPTIONS, dict(bounds=bounds))
 
 
